@@ -459,6 +459,16 @@ func (r *c08Runner) Step(t []string, raw string) string {
 	older := frontend.DefaultCypherContext()
 	_ = frontend.DefaultCypherContext()
 	o := c08Parse(older, text)
+	// ... and a context that has already parsed a clean query must report this text's errors all the same: nothing the
+	// context remembers from the first parse (a cached "no error") may answer for the second (seed C08-r6-1)
+	if o.cls == d.cls && o.isNil == d.isNil {
+		reused := frontend.DefaultCypherContext()
+		_, _ = frontend.ParseCypher(reused, "match (zz) return zz")
+		if again := c08Parse(reused, text); again.cls != d.cls || again.isNil != d.isNil {
+			o = again
+			r.stats.Inc("reused_context_differs")
+		}
+	}
 	render := n.render
 	if render == "" {
 		render = "-"
